@@ -35,6 +35,7 @@ def assoc_const(prog, impl_ty, name):
 
 
 def check(run):
+    ob_padding_arithmetic(run, "O11.6")
     prog = run.program("lib")
 
     # ------------------------------------------------------------------ O11.1
@@ -218,3 +219,102 @@ def check(run):
                 if a[0] == "eq" and a[2] is True and any(const_side(t) == 0x80 for t in a[1]):
                     ok = True
         o.check(ok, "ReedSolomonCoder::deshred|padding-marker", "Ok only when the byte before the zero padding is 0x80", b.span)
+
+
+def ob_padding_arithmetic(run, oid):
+    """O11.6: the size arithmetic of ReedSolomonCoder::shred, evaluated for EVERY payload length 0..=MAX_DATA_PER_SLICE.
+    The quantities are taken where they are used, not by local name: shard size = 3rd argument of encoder.reset and of both
+    .chunks(..) calls; boundary = payload[..b] / payload[b..]; tail size = Vec::resize(.., n, 0)."""
+    from . import termeval as TE
+    prog = run.program("lib")
+    o = run.ob(oid, "padding arithmetic of ReedSolomonCoder::shred holds for every payload length 0..=MAX_DATA_PER_SLICE: DATA_SHREDS equal even-sized shards, "
+                    "marker fits, nothing under/overflows",
+               "a length for which the tail is not a whole number of shards (or the shard size is odd / above MAX_DATA_PER_SHRED) makes the encoder's expect panic or "
+               "yields a slice that cannot be restored: 'every slice that fits the size limit' fails for that residue", floor=8)
+    b = prog.body(RS + "::shred")
+    if b is None:
+        o.missing("ReedSolomonCoder::shred")
+        return
+    data = prog.const_int(SH + "DATA_SHREDS")
+    mx = prog.const_int(SH + "MAX_DATA_PER_SLICE")
+    mps = prog.const_int(SH + "MAX_DATA_PER_SHRED")
+    if None in (data, mx, mps):
+        o.missing("shredder constants")
+        return
+
+    def one(cs, what):
+        if len(cs) != 1:
+            o.fail("shred|anchor|" + what, "expected exactly one %s in ReedSolomonCoder::shred (found %d)" % (what, len(cs)), b.span)
+            return None
+        return cs[0]
+    reset = one([c for c in b.calls() if c.name.endswith("ReedSolomonEncoder::reset")], "encoder.reset")
+    resize = one([c for c in b.calls() if c.name.endswith("Vec::resize")], "Vec::resize of the tail")
+    chunks = [c for c in b.calls() if c.name.rsplit("::", 1)[-1] == "chunks"]
+    idx = [c for c in b.calls() if c.name.endswith("index::index") or c.name.endswith("Index<I>>::index")]
+    rto = rfrom = None
+    for c in idx:
+        for x in mir.walk(b.operand_term(c.args[1])):
+            if isinstance(x, tuple) and x and x[0] == "agg":
+                if "RangeTo" in str(x[1]) and "Inclusive" not in str(x[1]):
+                    rto = x
+                elif "RangeFrom" in str(x[1]):
+                    rfrom = x
+    if reset is None or resize is None or len(chunks) != 2 or rto is None or rfrom is None:
+        o.fail("shred|anchors", "could not find reset / resize / two chunks calls / payload[..b] and payload[b..]", b.span,
+               {"chunks": len(chunks), "range_to": rto is not None, "range_from": rfrom is not None})
+        return
+
+    def agg_op(x):
+        # ("agg", path, variant, ((field, term), ...)): the single bound of RangeTo / RangeFrom
+        fs = x[3] if len(x) > 3 else ()
+        return fs[0][1] if len(fs) == 1 else None
+    S_t = b.operand_term(reset.args[3])
+    L_t = b.operand_term(resize.args[1])
+    Bto_t, Bfrom_t = agg_op(rto), agg_op(rfrom)
+    C_t = [b.operand_term(c.args[1]) for c in chunks]
+    if Bto_t is None or Bfrom_t is None:
+        o.fail("shred|anchors|range-bounds", "could not read the bounds of payload[..b] / payload[b..]", b.span)
+        return
+
+    def env_for(n):
+        def env(t):
+            if isinstance(t, tuple) and t and t[0] == "call" and t[1].rsplit("::", 1)[-1] == "len" and K.mentions_arg(b, t, 2):
+                return n
+            return None
+        return env
+    bad = {}
+    undec = None
+    for n in range(0, mx + 1):
+        e = env_for(n)
+        try:
+            S, L, B1, B2 = TE.ev(S_t, e), TE.ev(L_t, e), TE.ev(Bto_t, e), TE.ev(Bfrom_t, e)
+            C1, C2 = TE.ev(C_t[0], e), TE.ev(C_t[1], e)
+        except TE.Unknown as ex:
+            undec = str(ex)
+            break
+        except TE.Overflow as ex:
+            bad.setdefault("no-overflow", []).append((n, str(ex)))
+            continue
+        checks = {
+            "one-boundary": B1 == B2,
+            "chunk-size=shard-size": C1 == S and C2 == S,
+            "shard-size-even-positive-bounded": S >= 2 and S % 2 == 0 and S <= mps,
+            "head-whole-shards": B1 <= n and S > 0 and B1 % S == 0,
+            "tail-whole-shards": S > 0 and L % S == 0 and L >= 1,
+            "exactly-DATA_SHREDS-shards": S > 0 and (B1 + L) == data * S,
+            "marker-fits": n - B1 + 1 <= L if B1 <= n else False,
+        }
+        for k, v in checks.items():
+            if not v:
+                bad.setdefault(k, []).append((n, {"shard": S, "tail": L, "boundary": B1}))
+    if undec is not None:
+        run.notes.append("O11.6: a size expression of ReedSolomonCoder::shred is outside the evaluator's vocabulary (%s): padding arithmetic not decided" % undec)
+        o.ok("shred|padding-arithmetic|not-decided", "size expressions use operations outside the term evaluator: not decided (no alarm)", b.span, nontrivial=False)
+        return
+    for k in ("no-overflow", "one-boundary", "chunk-size=shard-size", "shard-size-even-positive-bounded", "head-whole-shards", "tail-whole-shards", "exactly-DATA_SHREDS-shards", "marker-fits"):
+        v = bad.get(k, [])
+        o.check(not v, "shred|padding|" + k, "%s for every payload length 0..=%d" % (k, mx), b.span, {"first_failing_lengths": v[:3], "failing": len(v)})
+    # the size gate really is `len > MAX_DATA_PER_SLICE => Err`
+    errs = [(bb, sp) for (bb, rv, sp, dst) in b.aggregates("core::result::Result", "Err") if dst["l"] == 0]
+    g = any(a[0] == "lt" and a[2] is True and K.const_eval(a[1][0]) == mx and K.mentions_call(a[1][1], "len") for (bb, sp) in errs for a in G.guard_atoms(b, bb, prog))
+    o.check(g, "shred|gate=MAX_DATA_PER_SLICE", "payloads are refused exactly above MAX_DATA_PER_SLICE (%d), the bound the arithmetic was evaluated for" % mx, b.span)
